@@ -144,3 +144,8 @@ pub fn verif_dwarf_map_value(map: super::register::RegisterMap, n: u16) -> Optio
         .value(gimli::Register(n))
         .ok()
 }
+// Type-graph item types (C06): the harness serialises `QueryResult::type_graph()` for the value-decoder model
+pub use super::debugee::dwarf::NamespaceHierarchy;
+pub use super::debugee::dwarf::r#type::{
+    ArrayType, CModifier, MemberLocation, ScalarType, StructureMember, TypeId, TypeIdentity,
+};
